@@ -2,3 +2,6 @@ import VncSpec.Address
 import VncSpec.C2S
 import VncSpec.Keys
 import VncSpec.Pointer
+import VncSpec.Canvas
+import VncSpec.PixelFormat
+import VncSpec.Grammar
